@@ -4,48 +4,56 @@ import GoUefi.Properties.C02
 # C02 (generated tie) — the loop of `PECOFFBinary.Verify`, as the source has it now
 
 `authenticode.PECOFFBinary.Verify` (and `Signatures`, which it calls) as translated from authenticode/checksum.go on
-every run; `ParseAuthenticode` and `(*Authenticode).Verify` are external parameters (modelling: top of
-`Properties/C03g.lean`).  `C03g_verify` says which entry decides for ALL values of the externals; here the statement of
-`C02_sound` is transported to the translated loop for externals that answer as the model's parser and verifier do.
+every run; `ParseAuthenticode`, `(*Authenticode).verifyDigest`, `makeSectionReader` and the digest function of the
+standard library are external parameters, the closure `imageDigest` with its memo map is translated (modelling: top and
+section 5 of `Properties/C03g.lean`).  `C03g_verify` says which entry decides for ALL values of the externals whose
+`verifyDigest` reaches the closure's map only by calling the closure (`CallsOnly`); here the statement of `C02_sound` is
+transported to the translated loop for externals that answer as the model's parser and verifier do.
 -/
 namespace GoUefi.C02
 open GoUefi GoUefi.Gen GoUefi.C03
 
-/-- **`C02_sound` for the translated `Verify`**: when the externals answer as `Impl.parseAuthenticode` / `Impl.Auth.verify`
-    (hypothesis `hext`, as in `C03g_verify_refines`) and the bytes of `makeSectionReader(hashContent)` are the model's
-    hash stream, the translated `Verify` returns `(true, nil)` only if some entry of the certificate table parses as
-    Authenticode, names SHA-256, embeds the SHA-256 of this image's hash stream, and its PKCS#7 verifies under the
-    certificate -/
+/-- **`C02_sound` for the translated `Verify`**: when `verifyDigest` reaches the closure's map only by calling the closure
+    (`CallsOnly`) and the externals answer as `Impl.parseAuthenticode` / `Impl.Auth.verify` do (hypothesis `hext`, as in
+    `C03g_verify_refines`: every parsed entry, verified against the digest function of this image, gives the model's
+    outcome on the model's hash stream — `C03g_verifyDigest_model`), the translated `Verify` returns `(true, nil)` only
+    if some entry of the certificate table parses as Authenticode, names SHA-256, embeds the SHA-256 of this image's
+    hash stream, and its PKCS#7 verifies under the certificate -/
 theorem C02g_sound (fuel : Nat) (X : authenticode.Ext) (p : authenticode.PECOFFBinary) (cert : X509Cert)
     (C : Crypto) (certsOk : Bytes → Bool) (c : Cert) (parts : List Impl.Part) (regular : Bool)
+    (hX : CallsOnly X)
     (hf : p.certTable.length < fuel)
-    (hstream : (X.makeSectionReader p.hashContent).content = Impl.hashStream (absP p parts regular))
     (hext : ∀ b : List UInt8,
       match Impl.parseAuthenticode certsOk b with
       | none => (X.ParseAuthenticode b).2.isSome
       | some a => (X.ParseAuthenticode b).2 = none ∧
-          outcomeOf (X.Authenticode_Verify (X.ParseAuthenticode b).1 cert
-            (Impl.hashStream (absP p parts regular))).2 = a.verify C c (Impl.hashStream (absP p parts regular)))
+          outcomeOf (verifyDigestOf X (X.ParseAuthenticode b).1 cert (imageDigest X p)) =
+            a.verify C c (Impl.hashStream (absP p parts regular)))
     (h : authenticode.PECOFFBinary.Verify fuel X p cert = (true, none)) :
     ∃ w ws', ((absP p parts regular).signatures = .ok ws' ∧ w ∈ ws') ∧
       ∃ a, Impl.parseAuthenticode certsOk w.cert = some a ∧ a.alg = Impl.oidSha256 ∧
         a.digest = C.sha256 (Impl.hashStream (absP p parts regular)) ∧ a.pkcs.verify C c = .ok true := by
-  have hr := C03g_verify_refines fuel X p cert C certsOk c parts regular hf hstream hext
+  have hr := C03g_verify_refines fuel X p cert C certsOk c parts regular hX hf hext
   rw [h] at hr
   exact C02_sound hr.symm
 
-/-- … and the first-entry-decides characterisation, for every value of the externals (`C03g_verify_true_iff`) -/
-theorem C02g_verify_true_iff (fuel : Nat) (X : authenticode.Ext) (p : authenticode.PECOFFBinary) (cert : X509Cert) :
+/-- … and the first-entry-decides characterisation, for every value of the externals with `CallsOnly`
+    (`C03g_verify_true_iff`): success means that some entry parses and `verifyDigest` accepts it against THE DIGEST
+    FUNCTION OF THIS IMAGE (the digest, under the algorithm asked for, of the bytes of `makeSectionReader(hashContent)`)
+    while every entry before it parsed and answered `(false, nil)` against that same function -/
+theorem C02g_verify_true_iff (fuel : Nat) (X : authenticode.Ext) (p : authenticode.PECOFFBinary) (cert : X509Cert)
+    (hX : CallsOnly X) :
     authenticode.PECOFFBinary.Verify fuel X p cert = (true, none) ↔
       ∃ ws, p.Signatures fuel = (ws, none) ∧ ∃ pre w post, ws = pre ++ w :: post ∧
-        (∀ x ∈ pre, entryVerdict X (X.makeSectionReader p.hashContent).content cert x = none) ∧
+        (∀ x ∈ pre, entryVerdict X (imageDigest X p) cert x = none) ∧
         (X.ParseAuthenticode w.Certificate).2 = none ∧
-        (X.Authenticode_Verify (X.ParseAuthenticode w.Certificate).1 cert
-          (X.makeSectionReader p.hashContent).content).2 = (true, none) :=
-  C03g_verify_true_iff fuel X p cert
+        verifyDigestOf X (X.ParseAuthenticode w.Certificate).1 cert (imageDigest X p) = (true, none) :=
+  C03g_verify_true_iff fuel X p cert hX
 
 example : authenticode.PECOFFBinary.Verify 17 X0 (p0.AppendSignature [1, 2, 3]).1 certA = (true, none) := by
   decide +kernel
+/-- … and the right-hand side of `C02g_verify_true_iff` for it (`X0` satisfies `CallsOnly`) -/
+example := (C02g_verify_true_iff 17 X0 (p0.AppendSignature [1, 2, 3]).1 certA X0_callsOnly).mp (by decide +kernel)
 
 end GoUefi.C02
 
